@@ -20,11 +20,12 @@ pub static PROP: Prop = Prop {
     fixed,
     replay: Some(replay),
     breadcrumb: false,
+    fuzz: &[Fuzz { target: "choice", choice: true, runs: 300000, max_len: 160 }],
 };
 
 fn budget(t: Tier) -> Budget {
     Budget {
-        cases: t.pick(200_000, 10_000_000),
+        cases: t.pick(5_000_000, 60_000_000),
         max_len: 40,
         shards: 16,
         dual_profile: false,
